@@ -121,6 +121,8 @@ type FnCtx struct {
 	frame    *frameSpec
 	frameDone bool
 	nbarrier int
+	isClosure bool            // verifying a function literal: free variables are captured (symbolic) values
+	entryScope map[string]Val
 }
 
 func (fc *FnCtx) warn(format string, a ...any) {
@@ -228,7 +230,18 @@ func (fc *FnCtx) comp(st *State, key, srt string) string {
 
 func (fc *FnCtx) setComp(st *State, key, srt, term string) {
 	fc.comp(st, key, srt) // make sure the initial constant exists
-	st.heap[key] = term
+	st.heap[key] = fc.nameIfBig(st, term, srt, "Hn_"+key)
+}
+
+// nameIfBig introduces a constant for a large term (with its defining equation as an assumption) so that
+// later terms refer to the name: without this, nested stores / ites grow exponentially.
+func (fc *FnCtx) nameIfBig(st *State, term, srt, hint string) string {
+	if len(term) < 1500 {
+		return term
+	}
+	n := fc.smt.fresh(hint, srt)
+	st.pc = append(st.pc, eq(n, term))
+	return n
 }
 
 func (fc *FnCtx) havocComp(st *State, key string) {
@@ -487,7 +500,7 @@ func (fc *FnCtx) mergeStates(sts []*State) *State {
 			delete(m.vars, obj)
 			continue
 		}
-		m.vars[obj] = Val{t, v.Ty}
+		m.vars[obj] = Val{fc.nameIfBig(m, t, fc.smt.sortOf(v.Ty), "m_"+obj.Name()), v.Ty}
 	}
 	keys := map[string]bool{}
 	for _, s := range sts {
@@ -507,6 +520,9 @@ func (fc *FnCtx) mergeStates(sts []*State) *State {
 			}
 			return fc.smt.initHeap[k], true
 		})
+		if srt, ok := fc.smt.heapSort[k]; ok {
+			t = fc.nameIfBig(m, t, srt, "Hm_"+k)
+		}
 		m.heap[k] = t
 	}
 	t, _ := pick(func(s *State) (string, bool) { return s.top, true })
